@@ -9,10 +9,10 @@ CORR = ("; the model is defined over constants extracted from the source on ever
         "differential correspondence run (boundary-directed generators) plus an independent property oracle on the real code")
 NOTE = ("Lean kernel + propext/Classical.choice/Quot.sound (audited per theorem); Python control flow is modelled by hand and tied "
         "to the source (a) by the differential correspondence run in every tier and (b) in the thorough tier by a machine "
-        "translation of 149 functions of the package (all of bech32.py and bip32.py, Base58, varint/script, BIP39 sentence, "
+        "translation of 153 functions of the package (all of bech32.py, bip32.py and ripemd.py, Base58, varint/script, BIP39 sentence, "
         "seed and the random route, keys.py, base_wallet.py, bip85.py, wallet_utils.py (Version tables read from source, Bip32Path), "
         "paper_wallet.py reports and text layer, paranoia_mode, CLI validators and the dispatch of main) PROVED equal to the model "
-        "(Props/Tr*.lean; the tables the translators use are their trusted base, DESIGN 10.6/10.15/10.16/10.18); ")
+        "(Props/Tr*.lean; the tables the translators use are their trusted base, DESIGN 10.6/10.15/10.16/10.18/10.19; for ripemd.py the passage from Python integers to residues mod 2^32 is a syntactically checked, not machine-checked, argument); ")
 TECH = "Lean 4 theorems over an executable model + model/implementation correspondence"
 
 CLAIMED = {
